@@ -400,6 +400,44 @@ def _run_strings(griffe, acc):
                         acc.violation(f"strings/{slot}/{'future' if future else 'nofuture'}/{lit}" + ("" if where == "top-level" else "/submodule"), f"{src_ann} in {slot} ({'with' if future else 'without'} postponed evaluation, {where}) is stored as {str(stored)!r}, expected {exp!r}", case)
 
 
+def _run_two_scopes(griffe, acc):
+    """The same annotation TEXT (quoted or not) in two scopes of one load, and in two loads of one process: each occurrence is its own expression, whose names
+    belong to the scope it was written in (and whose parsing follows the rule of the module it was written in)."""
+    for ann, quoted in (("T", True), ("T", False), ("list[T]", True), ("T | None", True), ("dict[str, T]", False)):
+        a = f'"{ann}"' if quoted else ann
+        src = (f"class First:\n    class T: ...\n    q: {a} = None\n    def m(self, p: {a}) -> {a}: ...\n"
+               f"class Second:\n    class T: ...\n    q: {a} = None\n    def m(self, p: {a}) -> {a}: ...\n")
+        for future in (False, True):
+            code = ("from __future__ import annotations\n" if future else "") + src
+            mod = griffe.visit("two", filepath=Path("two.py"), code=code)
+            case = {"family": "two-scopes", "annotation": a, "future": future}
+            bad = []
+            for cls in ("First", "Second"):
+                for where, expr in (("attribute", mod[cls]["q"].annotation), ("parameter", mod[cls]["m"].parameters["p"].annotation), ("returns", mod[cls]["m"].returns)):
+                    if future and quoted:
+                        continue  # (stays a string: nothing to resolve)
+                    names = [n.canonical_path for n in expr.iterate(flat=True) if type(n).__name__ == "ExprName" and n.name == "T"] if not isinstance(expr, str) else []
+                    if names != [f"two.{cls}.T"]:
+                        bad.append((cls, where, names))
+            acc.case(case, outcome="two-scopes:" + ("ok" if not bad else "bad"), nontrivial=True)
+            acc.observe(bad)
+            if bad:
+                acc.violation(f"scope/same-text-two-scopes/{'quoted' if quoted else 'plain'}/{bad[0][1]}", f"{a} written in {bad[0][0]} ({bad[0][1]}): the name T resolves to {bad[0][2]}, expected ['two.{bad[0][0]}.T']", case, None, size=len(a))
+    # two loads in one process: the same module path once with and once without postponed evaluation
+    for first in (False, True):
+        outs = []
+        for future in (first, not first):
+            code = ("from __future__ import annotations\n" if future else "") + "class A: ...\nx: \"list[A]\" = None\n"
+            mod = griffe.visit("twice", filepath=Path("twice.py"), code=code)
+            outs.append((future, str(mod["x"].annotation)))
+        case = {"family": "two-scopes", "loads": outs}
+        want = [(f, "'list[A]'" if f else "list[A]") for f, _ in outs]
+        norm = [(f, t.replace('"', "'")) for f, t in outs]
+        acc.case(case, outcome="two-loads:" + ("ok" if norm == want else "bad"), nontrivial=True)
+        if norm != want:
+            acc.violation("strings/second-load-same-module-path", f"loading the same module path twice (postponed evaluation {outs[0][0]} then {outs[1][0]}): annotations stored as {norm}, expected {want}", case, None, size=2)
+
+
 def run_shard(shard, tier):
     boot.boot()
     import griffe
@@ -407,6 +445,8 @@ def run_shard(shard, tier):
     acc = Acc()
     if shard == 0:
         _run_strings(griffe, acc)
+    if shard == 1:
+        _run_two_scopes(griffe, acc)
     for idx, tree in enumerate(X.enumerate_trees(tier)):
         if idx % NSHARDS != shard:
             continue
@@ -430,7 +470,9 @@ def replay(case):
     import griffe
 
     acc = Acc()
-    if "annotation" in case and "tree" not in case:
+    if case.get("family") == "two-scopes":
+        _run_two_scopes(griffe, acc)
+    elif "annotation" in case and "tree" not in case:
         _run_strings(griffe, acc)
     else:
         _run_tree(griffe, acc, _detuple(case["tree"]))
